@@ -620,7 +620,15 @@ struct Dumper {
         }
         if (auto *U = dyn_cast<UnaryExprOrTypeTraitExpr>(E)) {
             head(o, E, "sizeof");
-            o << ",\"t\":" << typeOf(U->getTypeOfArgument()) << "}";
+            o << ",\"t\":" << typeOf(U->getTypeOfArgument());
+            if (!U->isValueDependent() && !U->getTypeOfArgument().isNull() && !U->getTypeOfArgument()->isDependentType()) {
+                // canonical argument type and the value (instantiations): "ct", "sv"
+                o << ",\"ct\":" << typeOf(U->getTypeOfArgument().getCanonicalType());
+                Expr::EvalResult R;
+                if (U->EvaluateAsInt(R, C) && !R.HasSideEffects)
+                    o << ",\"sv\":\"" << llvm::toString(R.Val.getInt(), 10) << "\"";
+            }
+            o << "}";
             return;
         }
         // ---- dependent forms (pattern mode)
